@@ -124,12 +124,13 @@ Theorem C18_legal_message_changes_nothing : forall ahp known m pid ip proc now, 
 Proof. exact legal_message_no_penalty. Qed.
 
 (* the penalty call sites of the whole code base (regenerated from the sources) are exactly the catalogued ones: 2 malformed
-   envelope, 2 unknown procedure, 7 invalid sync request, 7 invalid sync response, 1 rate above the limit, and the 4 forwarding
+   envelope, 2 unknown procedure, 7 invalid sync request, 7 invalid sync response, 2 rate above the limit (request and response
+   path), and the 4 forwarding
    calls modelled in Gater.v; every deciding site is guarded; nobody else declares such a function *)
 Theorem C18_penalty_sites_catalogue :
   gen_penalty_sites = map fst expected_sites /\ gen_penalty_decls = expected_decls /\ sites_well_guarded = true /\
   (count_class MalformedEnvelope, count_class UnknownProc, count_class InvalidSyncRequest, count_class InvalidSyncResponse,
-   count_class RateAboveLimit, count_class Plumbing) = (2, 2, 7, 7, 1, 4)%nat.
+   count_class RateAboveLimit, count_class Plumbing) = (2, 2, 7, 7, 2, 4)%nat.
 Proof. vm_compute. repeat split; reflexivity. Qed.
 
 (* ---- the code before the fix commit: banPeer got an address without /p2p/<peerID>; the ban was recorded, the Disconnect skipped *)
